@@ -154,6 +154,10 @@ func worker(t *testing.T) {
 			})
 			out := kit.ExecOnce(t, p, tape, tier)
 			wd.Stop()
+			if os.Getenv("SIM_DUMPLOG") == "all" {
+				fmt.Println("=== run", ph.Name, i)
+				fmt.Println(strings.Join(out.Log, "\n"))
+			}
 			res.Evaluations++
 			res.PerPhase[ph.Name]++
 			res.SimSteps += uint64(out.SimSteps)
@@ -196,6 +200,9 @@ func worker(t *testing.T) {
 			// 1. reproducible from its own tape?
 			lanes := tape.Snapshot()
 			again := kit.ExecOnce(t, p, replayOf(tape, lanes), tier)
+			if os.Getenv("SIM_DUMPLOG") != "" && (os.Getenv("SIM_DUMPLOG") != "diff" || again.LogHash() != out.LogHash()) {
+				fmt.Println("=== first\n" + strings.Join(out.Log, "\n") + "\n=== replay\n" + strings.Join(again.Log, "\n"))
+			}
 			if !kit.SameFailure(again.Violation, out.Violation) || again.LogHash() != out.LogHash() {
 				res.Nondet = append(res.Nondet, fmt.Sprintf("%s/%d: first %v, replay %v", ph.Name, i, out.Violation, again.Violation))
 				continue
@@ -483,6 +490,11 @@ func master() int {
 	sort.Strings(keys)
 	unlisted, listed := 0, map[string]int{}
 	os.MkdirAll(filepath.Join(verif, "replays"), 0o755)
+	if old, _ := filepath.Glob(filepath.Join(verif, "replays", id+"-*.json")); os.Getenv("SIM_NO_EVIDENCE") == "" {
+		for _, f := range old {
+			os.Remove(f) // replay files of earlier runs of this check
+		}
+	}
 	var lines []string
 	for _, k := range keys {
 		v := merged.Violations[k]
